@@ -178,6 +178,7 @@ typedef struct thread_pool_thread_s { /* thread pool thread info */
 	struct kevent	ev_changelist[TPT_ITEM_EV_COUNT]; /* Passed to kevent. */
 #endif /* BSD specific code. */
 	pthread_t	pt_id;		/* Thread id. */
+	volatile size_t	join_claimed;	/* Non zero: some tp_shutdown_wait() caller joins this thread. */
 	int		cpu_id;		/* CPU num or -1 if no bindings. */
 	size_t		thread_num;	/* num in array, short internal thread id. */
 	void		*msg_queue;	/* Queue specific. */
@@ -1169,9 +1170,12 @@ tp_shutdown_wait(tp_p tp) {
 		/* Threads created by tp_threads_create() keep pt_id until
 		 * joined here, even if they have allready left the loop. */
 		pt_id = tp->threads[i].pt_id;
-		if (0 == memcmp(&pt_id, &pt_zero, sizeof(pthread_t))) {
+		if (0 == memcmp(&pt_id, &pt_zero, sizeof(pthread_t)) ||
+		    0 != __sync_fetch_and_add(&tp->threads[i].join_claimed, 1)) {
 			/* Never started, attached by tp_thread_attach_first()
-			 * or joined by other caller: only wait for loop exit. */
+			 * or joined by other caller: only wait for loop exit.
+			 * The claim is atomic: two callers that read the same
+			 * id must not both pthread_join() it. */
 			while (TP_THREAD_STATE_STOP != tp->threads[i].state) {
 				nanosleep(&rqts, NULL); /* Ignore early wakeup and errors. */
 			}
